@@ -52,4 +52,30 @@ TABLE = {
              "of the resource, nil on repeated Close, Closed() false before / true after.",
         note="Only the clauses the statement fixes are asserted; states where another wrapper of the chain was closed are not judged.",
         technique="runtime monitoring: reference-model oracle over enumerated and random call histories on instrumented fake resources"),
+    "C01": dict(
+        ready=True, level="exploration",
+        text="Real server and client commands in one process on every carrier (17 kinds incl. TLS, StartTLS, websocket, stdio pipes, KCP with and "
+             "without secret, DNS) x listener kind; the harness holds both ends of each logical connection (application socket, target's accepted "
+             "socket) and compares keyed/zero/0xFF streams online in both directions at once for every boundary length and write size the code has "
+             "(4096/32640/32768/65536 straddled), then checks end-of-stream exactly at the written length. ~700 connections quick; full "
+             "length x write-size product in thorough.",
+        note="Loopback sockets / in-process pipes stand for the network; DNS and KCP payload sizes are capped; completion is judged by the stall "
+             "rule (no byte of progress for W seconds with only the system under test left to act), never by a deadline.",
+        technique="runtime monitoring: online byte-stream comparator on keyed streams at both observation points of real end-to-end sessions"),
+    "C11": dict(
+        ready=True, level="fault_enumeration",
+        text="Real client Handshake() against the real listener through path models applied to the wire form (case folding, 7-bit names, every "
+             "subset of answered record types with timeout/NXDOMAIN/empty answers, answer size limits 512-8192 with drop or truncation, EDNS0 "
+             "stripping, combinations); termination decided by counting exchanges (20000), and after a successful handshake keyed payloads of 1 "
+             "byte..8 fragments go both ways over the same path. 40 behaviours quick, 640 thorough.",
+        note="The path model is deterministic per message and identical in probing and data phases; 'terminates' is restated as <=20000 exchanges.",
+        technique="runtime monitoring: fault-injecting path model at the DNS exchange boundary + termination counter + keyed-stream oracle"),
+    "C18": dict(
+        ready=True, level="exploration",
+        text="Reference table transcribed from the README (scheme -> transport, encrypted?) for server/channel/upstream/listener positions; the real "
+             "parsers are run in-process on YAML, JSON and command-line forms of every documented scheme and of near-misses (metamorphic agreement "
+             "between forms, errors not panics), and the real binary is started with generated configurations while a transport classifier probes "
+             "what actually listens / what the client emits first. ~4700 evaluations quick.",
+        note="The README is the specification; undocumented schemes are only judged for their natural reading when accepted. Known findings listed.",
+        technique="runtime monitoring: black-box transport classification of the real binary + in-process parser oracle against a documented table"),
 }
